@@ -50,6 +50,9 @@ type MemFile struct {
 	// Hook, when set, is called (without the lock) before every write with its ordinal.
 	Hook  func(ord int)
 	NoLog bool
+	// EagerEOF makes ReadAt report io.EOF together with a full read that ends exactly at the end
+	// of the file, which the io.ReaderAt contract allows.
+	EagerEOF bool
 }
 
 func New(initial []byte) *MemFile {
@@ -107,7 +110,7 @@ func (m *MemFile) ReadAt(p []byte, off int64) (int, error) {
 		return 0, io.EOF
 	}
 	n := copy(p, m.data[off:])
-	if n < len(p) {
+	if n < len(p) || (m.EagerEOF && n > 0 && off+int64(n) == int64(len(m.data))) {
 		return n, io.EOF
 	}
 	return n, nil
